@@ -641,6 +641,10 @@ theorem c11_event_shape :
 (`WormholeMessageEventIndex` in utils.go): a node reports events by that index. -/
 theorem c11_event_index : Gen.C11.eventIndex = Gen.C11.goWormholeMessageEventIndex := by decide
 
+/-- The event's `sender` is `callerContractId!()`; the only contract that calls `governance.publishWormholeMessage` is the TokenBridge
+contract, whose id the watcher is configured with. -/
+theorem c11_only_token_bridge_publishes : Gen.C11.wormholePublishers = ["token_bridge/token_bridge.ral"] := by decide
+
 /-- running end offsets of a width list -/
 def ends : List Nat → Nat → List Nat
   | [], _ => []
